@@ -87,7 +87,10 @@ def cond(n, env):
     if k == "PrimaryCmpNode":
         if getattr(n, "cascade", None) is not None:
             raise Undecided("chained comparison")
-        return ("lit", n.operator, expr(n.operand1, env), expr(n.operand2, env))
+        a, b = expr(n.operand1, env), expr(n.operand2, env)
+        if a[0] == "int" and b[0] != "int" and n.operator in FLIP:
+            return ("lit", FLIP[n.operator], b, a)  # literal on the right
+        return ("lit", n.operator, a, b)
     if k in ("IntNode", "BoolNode"):
         return ("const", bool(int(n.value)) if k == "IntNode" else bool(n.value))
     if k == "NameNode":
@@ -291,9 +294,9 @@ class KWay:
         if adv is not None:
             A2, lo2, hi2 = self.range_loop(adv)
             adv_body = stmts(adv.body)
-            incs = [x for x in walk(adv.body) if tname(x) == "InPlaceAssignmentNode" and tname(unwrap(x.lhs)) == "MemoryViewIndexNode"]
+            incs = [x for x in walk(adv.body) if tname(x) in ("InPlaceAssignmentNode", "SingleAssignmentNode") and tname(unwrap(x.lhs)) == "MemoryViewIndexNode"]
             if len(incs) != 1 or unwrap(unwrap(incs[0].lhs).base).name != P:
-                raise Undecided("the advance loop does not hold exactly one in-place store into the cursors")
+                raise Undecided("the advance loop does not hold exactly one store into the cursors")
         # ---- scan loop roles: carried scalars M (marker) and mv (minimum)
         assigned = {}
         for p in paths(scan_body, Env()):
